@@ -229,10 +229,16 @@ def run(ctx):
         jwt_private = 0
         signs_ok = 0
         hdr_feat = Counter()
+        audit_events = Counter()
         for i, line in enumerate(impl):
             op = json.loads(ops[i]) if i < len(ops) and ops[i] else {}
             k = op.get("op")
             kinds[k] += 1
+            ma = re.search(r" audit=\[(.*)\]$", line)
+            if ma:
+                line = line[:ma.start()]
+                for ev in filter(None, ma.group(1).split(";")):
+                    audit_events[ev.split(":", 1)[0]] += 1
             distinct.add(("ks", ops[i] if k in ("signjws", "signjwt", "jwkclass") else (k, op.get("kid"), op.get("keyName"), op.get("how"), i - seq_start)))
             if "panic:" in line:
                 found_violation |= ctx.violation("C03:ks:panic", line[:200], "ks-panic.jsonl", "\n".join(ops[seq_start:i + 1]))
@@ -314,7 +320,7 @@ def run(ctx):
         if jwt_private:
             ctx.notes.append(f"observation (not a violation of the property as stated — the key is the caller's, never a key store key): "
                              f"SignJWT has no jwk-header rule; {jwt_private} generated calls embedded a caller-supplied private JWK (model predicts the same)")
-        dist["keystore"] = {"ops": dict(kinds), "signatures_checked": signs_ok, "header_outcomes": dict(hdr_feat.most_common(12))}
+        dist["keystore"] = {"ops": dict(kinds), "signatures_checked": signs_ok, "audit_records_compared": dict(audit_events), "header_outcomes": dict(hdr_feat.most_common(12))}
 
         # ---- canary scan (EXPLORATION)
         cp = os.path.join(out, "ks_canary.json")
